@@ -37,6 +37,36 @@ def write_file(case, recs):
         return mciipm.vbs_list_to_bytes(recs)
     if api == 'funcgen':      # the records handed over as a one-shot iterator (the parameter is annotated `iter`)
         return mciipm.vbs_list_to_bytes((r for r in recs), blocked=blocked)
+    if api == 'rebind':
+        # writer objects created on the same file and dropped without close() (a helper that builds a writer, finds
+        # nothing to write, and lets it go); only the last writer writes and finalises
+        import gc
+        f = KeepOpen()
+        for _ in range(2):
+            w = mciipm.VbsWriter(f, blocked=blocked)
+            w = None
+            gc.collect()
+        w = mciipm.VbsWriter(f, blocked=blocked)
+        for r in recs:
+            w.write(r)
+        w.close()
+        return f.getvalue()
+    if api == 'batches':
+        # (unblocked) one writer object per batch on the same file object; earlier writers are simply dropped, only the
+        # last one is closed
+        import gc
+        f = KeepOpen()
+        half = max(1, len(recs) // 2)
+        w = mciipm.VbsWriter(f, blocked=False)
+        for r in recs[:half]:
+            w.write(r)
+        w = None
+        gc.collect()
+        w = mciipm.VbsWriter(f, blocked=False)
+        for r in recs[half:]:
+            w.write(r)
+        w.close()
+        return f.getvalue()
     if api == 'manygen':      # write_many fed from a generator
         f = KeepOpen()
         w = mciipm.VbsWriter(f, blocked=blocked)
@@ -82,6 +112,12 @@ def impl_eval_inner(case):
             exc = None
         except Exception as ex:  # noqa
             back, exc = [], ex
+    elif case.get('api') == 'offset':
+        # the VBS data sits behind an application header: the reader is handed a file object positioned at its start
+        head = bytes(range(1, 17)) * (1 + len(recs) % 3)
+        fobj = io.BytesIO(head + data)
+        fobj.seek(len(head))
+        back, exc = read_all(mciipm.VbsReader(fobj, blocked=blocked))
     else:
         back, exc = read_all(mciipm.VbsReader(io.BytesIO(data), blocked=blocked))
     why = None
@@ -162,6 +198,10 @@ def explore(run, tier):
         for lens in ([5], [1, 2, 3], [1000, 1012, 7], [ml]):
             cases.append({'b': b, 'lens': lens, 'api': 'funcgen'})
             cases.append({'b': b, 'lens': lens, 'api': 'manygen'})
+            cases.append({'b': b, 'lens': lens, 'api': 'offset'})
+            cases.append({'b': b, 'lens': lens, 'api': 'rebind'})
+            if b == 0 and len(lens) >= 2:
+                cases.append({'b': 0, 'lens': lens, 'api': 'batches'})
         for count, size in ((70, 1000), (66, 1008), (140, 997), (30, ml)):
             cases.append({'b': b, 'lens': [size] * count, 'api': apis[(count + b) % 3]})
     # the configured maximum changed at run time: records up to the NEW maximum must survive
